@@ -49,8 +49,9 @@ def main():
         try:
             for p in plist:
                 t0 = time.time()
+                env = dict(os.environ, VERIF_EVIDENCE_DIR=os.path.join(VERIF, ".cache", "evidence-seeded"))
                 r = subprocess.run(["python3", os.path.join(VERIF, "tools", "check.py"), p, "--tier", "quick"],
-                                   cwd=VERIF, stdout=subprocess.PIPE, stderr=subprocess.DEVNULL)
+                                   cwd=VERIF, stdout=subprocess.PIPE, stderr=subprocess.DEVNULL, env=env)
                 out = r.stdout.decode()
                 viol = [l for l in out.splitlines() if l.startswith("VIOLATION")]
                 kind = ""
